@@ -13,7 +13,8 @@ RULE = (
     "(user, password, each path segment after reference dot-segment removal, each query pair under form semantics, fragment) of the result must "
     "percent-decode to the same bytes as the supplied unit.  Decoded-text (build, with_*, '/', joinpath, string and mapping queries): the unit "
     "must decode to the UTF-8 bytes of the supplied text ('%' is data).  In both, counts of literal and of encoded '/', '&', '=', '+', ';' are "
-    "compared so delimiter status cannot flip, and join must keep the base directory's segments byte-identical.  EXHAUSTIVE kernel: all 256 "
+    "compared so delimiter status cannot flip, and join must keep the base directory's segments byte-identical.  update_query(str) and '%' read "
+    "their text as an encoded query: each supplied pair must come out with the same decoded bytes on receivers with and without a query.  EXHAUSTIVE kernel: all 256 "
     "%XX in upper and lower case and all 128 ASCII literals x 6 component positions x 4 neighbour contexts; plus seeded random texts "
     "(no lone surrogates) on both backends; SHARED phase: the same monitors while 4-6 barrier-released threads parse and build distinct escape-rich URLs "
     "through the module-level quoters (switch interval 1 us; each thread records into its own recorder).  Signature = (entry point, component, class "
@@ -382,6 +383,50 @@ def check_join(ctx, base_s, ref_s, sig):
         ctx.fail("meaning_changed", case, "; ".join(f"{n}: expected {w!r} got {g!r}" for n, w, g in bad), fields=[x[0] for x in bad])
 
 
+def check_update_str(ctx, t, sig):
+    """update_query(str) / '%' READ the text as an encoded query (escapes and '+' are live, like the constructor's query): every supplied
+    pair must come out with the same decoded bytes, on a receiver WITHOUT a query (absolute and relative) and on one with an unrelated pair."""
+    from yarl import URL
+
+    if has_surrogate(t) or "#" in t:
+        return
+    pieces = [pc for pc in t.split("&") if pc]
+    want = []
+    for pc in pieces:
+        k, sep, v = pc.partition("=")
+        want.append((pct_decode_bytes(k, True), pct_decode_bytes(v, True)))
+    keys = [k for k, _ in want]
+    if len(set(keys)) != len(keys) or b"zq" in keys:
+        ctx.count("update_str_skipped_colliding_keys")
+        return
+    try:
+        for k, v in want:
+            k.decode("utf-8"), v.decode("utf-8")
+    except UnicodeDecodeError:
+        # urllib's parse_qsl reads the text as str: a non-UTF-8 escape has no str value (it comes out U+FFFD); 'decoding as UTF-8' is not defined for it
+        ctx.count("gray_update_str_non_utf8")
+        return
+    for base_s, pre in (("http://h/p", []), ("/rel/only", []), ("http://h/p?zq=1#f", [(b"zq", b"1")]), ("http://h", [])):
+        b = URL(base_s)
+        for label, fn in (("update_query", lambda: b.update_query(t)), ("mod", lambda: b % t)):
+            case = {"regime": "update_str", "text": t}
+            u = guarded(fn)
+            if is_exc(u):
+                if u.type in ("ValueError", "TypeError"):
+                    ctx.count("rejected")
+                else:
+                    ctx.fail("unexpected_exception", case, f"{label} on {base_s!r}: {u!r}")
+                continue
+            rq = u.raw_query_string
+            got = [(k, v if v is not None else b"") for k, v in raw_query_units(rq)] if rq else []
+            ctx.count("update_str_checked")
+            ok = got == pre + want
+            ctx.ev(sig + (bool(pre), "ok" if ok else "bad") if sig else None)
+            if not ok:
+                ctx.fail("meaning_changed", case, f"{label}({t!r}) on {base_s!r}: expected pairs {pre + want!r} got {got!r} (raw {rq!r})", fields=["update_str"], raw=str(u))
+                return
+
+
 def check_retained(ctx, t, sig):
     """What a modifier RETAINS keeps its bytes: with_suffix keeps the stem (and every other segment), with_name / parent / '/' keep
     the other segments, of a receiver whose name carries the unit t in its stem and in its extension."""
@@ -440,6 +485,8 @@ def run(ctx):
             check_ctor(ctx, c["s"], ("replay",))
         elif c["regime"] == "decoded":
             check_decoded(ctx, c["entry"], c["text"], ("replay",))
+        elif c["regime"] == "update_str":
+            check_update_str(ctx, c["text"], ("replay",))
         else:
             check_join(ctx, c["base"], c["ref"], ("replay",))
         return
@@ -463,6 +510,7 @@ def run(ctx):
                 for entry in DECODED_ENTRIES:
                     check_decoded(ctx, entry, t, (entry, kind, b >> 3, nb))
                 check_retained(ctx, t, ("retained", kind, b >> 3, nb))
+                check_update_str(ctx, f"k{t}=v{t}&x=1", ("update_str", kind, b >> 3, nb))
                 check_join(ctx, f"http://h/d{t}/e{t}/f?bq#bf", f"g{t}/../h?{t}#{t}", ("join", kind, b >> 3, nb))
                 check_join(ctx, f"http://h/a%20b/c%2Fd%3F%23%25/{t}/f", "x", ("join-esc", kind, b >> 3, nb))
         # kept escapes (encoded delimiters, bytes >= 0x80, lower-case hex) placed around the compiled writer's buffer sizes: the
@@ -509,6 +557,9 @@ def run(ctx):
         t = tg.text(5, 1)[0]
         entry = r.choice(DECODED_ENTRIES)
         check_decoded(ctx, entry, t, None if is_trivial_text(t) else (entry, text_classes(t)))
+        if k % 4 == 0:
+            qt = tg.text(4, 1)[0].replace("#", "")
+            check_update_str(ctx, r.choice(["k={}", "{}=v", "a={}&b=2", "{}"]).format(qt) if "{" not in qt and "}" not in qt else qt, None if is_trivial_text(qt) else ("update_str", text_classes(qt)))
         if k % 3 == 0:
             bt = tg.text(3)[0].replace("?", "").replace("#", "")
             check_join(ctx, f"http://h/{bt}/x{bt}/f", tg.text(3)[0], ("join", text_classes(bt)))
@@ -522,7 +573,7 @@ def finalize(merged, results, tier):
     c = merged["counters"]
     if c.get("shared_thread_runs", 0) == 0:
         unmet.append("the shared (multi-thread) phase did not run")
-    for k in ("ctor_checked", "decoded_checked", "join_checked"):
+    for k in ("ctor_checked", "decoded_checked", "join_checked", "update_str_checked"):
         if c.get(k, 0) == 0:
             unmet.append(k + " == 0: monitor not reached")
     return unmet, {"exhaustive": True, "exhaustive_note": "the %XX / ASCII literal x position x neighbour kernel is complete on both backends; URL texts are sampled"}
